@@ -146,6 +146,31 @@ def recheck_props(workdir, pid):
     assumptions = [by_name.get(t, "not printed") for t in theorems]
     return ok, theorems, assumptions, out
 
+ALLOWED_AXIOMS = {"Coq.Logic.FunctionalExtensionality.functional_extensionality_dep", "Coq.Reals.ClassicalDedekindReals.sig_not_dec",
+                  "Coq.Reals.ClassicalDedekindReals.sig_forall_dec", "Coq.Logic.Classical_Prop.classic"}      # the standard library's own (DESIGN.md §6)
+
+def coqchk_props(pid, timeout=1500):
+    """coqchk -o over the compiled Props/<pid>.vo and everything it depends on (an independent checker): returns (verdict, detail, axioms);
+    verdict None = the checker did not finish in time (recorded, not judged)"""
+    try:
+        p = subprocess.run(["coqchk", "-o", "-silent", "-Q", COQ, "Measured", f"Measured.Props.{pid}"], capture_output=True, text=True, timeout=timeout)
+    except subprocess.TimeoutExpired:
+        return None, "coqchk did not finish within the time limit", []
+    except OSError as ex:
+        return None, f"coqchk could not be started: {ex}", []
+    out = p.stdout + p.stderr
+    if p.returncode != 0 or "CONTEXT SUMMARY" not in out:
+        if "out of memory" in out.lower() or p.returncode < 0: return None, "coqchk was stopped (memory / signal): " + out[-200:], []
+        return False, out[-800:], []
+    summary = out[out.index("CONTEXT SUMMARY"):]
+    m = re.search(r"\* Axioms:(.*?)\n\s*\n", summary, re.S)
+    axioms = [a for a in re.findall(r"^\s+([A-Za-z_][\w.']*)\s*$", m.group(1), re.M)] if m and "<none>" not in m.group(1).split("\n")[0] else []
+    unsafe = [ln.strip() for ln in summary.split("\n") if ln.strip().startswith("*") and any(k in ln for k in ("type-in-type", "unsafe", "positivity")) and "<none>" not in ln]
+    extra = sorted(set(axioms) - ALLOWED_AXIOMS)
+    if extra or unsafe:
+        return False, f"axioms outside the standard library's: {extra}; {unsafe}", axioms
+    return True, "", axioms
+
 FORBIDDEN = re.compile(r"\b(Admitted|admit|Axiom|Axioms|Parameter|Parameters|Conjecture|Admit Obligations|"
                        r"Unset Guard Checking|Unset Positivity Checking|Unset Universe Checking|bypass_check|"
                        r"native_compute|type-in-type|impredicative-set)\b")
@@ -212,6 +237,13 @@ class Check:
             a = assumptions[i] if i < len(assumptions) else "unknown"
             self.axioms[t] = a
             self.oblige(f"Theorem {t}", ok2, "")
+        if self.tier == "thorough":
+            # the independent checker over the compiled property file and its dependencies
+            verdict, detail, axioms = coqchk_props(self.pid)
+            self.cov["coqchk"] = {"finished": verdict is not None, "axioms": axioms, "note": detail[:200]}
+            if verdict is not None:
+                self.oblige(f"coqchk -o Measured.Props.{self.pid} (independent re-check of the compiled theorems and everything they depend on; axioms within the standard library's, "
+                            "no type-in-type, unsafe fixpoint or assumed positivity)", verdict, detail)
         return ok and ok2
 
     def run_coq(self, files):
